@@ -660,6 +660,18 @@ impl Sub for &Number {
     }
 }
 
+/// Divide two integers that fit in 32 bits. The fraction is reduced in 64 bit
+/// arithmetic, because normalising the sign of i32::MIN overflows in 32 bits, and
+/// i32::MIN / -1 is an integer that no 32 bit rational can hold.
+fn div_i32(lhs: i32, rhs: i32) -> Number {
+    let quotient = Rational64::new(lhs as i64, rhs as i64);
+    match (quotient.numer().to_i32(), quotient.denom().to_i32()) {
+        (Some(numer), Some(denom)) => Rational32::new_raw(numer, denom).into(),
+        _ if quotient.is_integer() => Number::Fixnum(quotient.to_integer()),
+        _ => (lhs as f64 / rhs as f64).into(),
+    }
+}
+
 impl Div for Number {
     type Output = Number;
     fn div(self, rhs: Self) -> Self::Output {
@@ -675,14 +687,14 @@ impl Div for &Number {
             Number::Fixnum(lhs) => match rhs {
                 Number::Fixnum(rhs) => {
                     if lhs.to_i32().is_some() && rhs.to_i32().is_some() {
-                        Rational32::new(*lhs as i32, *rhs as i32).into()
+                        div_i32(*lhs as i32, *rhs as i32)
                     } else {
                         (*lhs as f64 / *rhs as f64).into()
                     }
                 }
                 Number::BigInt(rhs) => {
                     if lhs.to_i32().is_some() && rhs.to_i32().is_some() {
-                        Rational32::new(*lhs as i32, rhs.to_i32().unwrap()).into()
+                        div_i32(*lhs as i32, rhs.to_i32().unwrap())
                     } else {
                         (*lhs as f64 / rhs.to_f64().unwrap_or(f64::NAN)).into()
                     }
@@ -702,14 +714,14 @@ impl Div for &Number {
             Number::BigInt(lhs) => match rhs {
                 Number::Fixnum(rhs) => {
                     if lhs.to_i32().is_some() && rhs.to_i32().is_some() {
-                        (Rational32::new(lhs.to_i32().unwrap(), *rhs as i32)).into()
+                        div_i32(lhs.to_i32().unwrap(), *rhs as i32)
                     } else {
                         (lhs.to_f64().unwrap_or(f64::NAN) / *rhs as f64).into()
                     }
                 }
                 Number::BigInt(rhs) => {
                     if lhs.to_i32().is_some() && rhs.to_i32().is_some() {
-                        (Rational32::new(lhs.to_i32().unwrap(), rhs.to_i32().unwrap())).into()
+                        div_i32(lhs.to_i32().unwrap(), rhs.to_i32().unwrap())
                     } else {
                         (lhs.to_f64().unwrap_or(f64::NAN) / rhs.to_f64().unwrap_or(f64::NAN)).into()
                     }
